@@ -27,7 +27,18 @@ def gen(ch, tier):
     # generator restriction for masking (DESIGN 7.1): zero-length bundles only in a share of runs
     prof['allow_zero'] = ch.coin('allow0', 1, 8)
     prof['modulate'] = ch.coin('modulate', 1, 3)
-    return tcpcl_pair.gen_plan(ch, prof)
+    plan = tcpcl_pair.gen_plan(ch, prof)
+    if ch.coin('many', 1, 8):
+        # a dozen more small bundles from one side and a consumer that only collects at the end: transfer ids reach two
+        # digits while the earlier ones are still waiting in the receive queue
+        side = ch.choice('many.side', ('A', 'P'))
+        tag = 1 + max([op.get('tag', 0) for op in plan['ops']] + [0])
+        for ix in range(12):
+            plan['ops'].append(dict(t=100000 + 15000 * ix + ch.pick('many.t', 10000), node=side, op='send', len=ch.choice('many.len', (1, 7, 150)), tag=tag + ix))
+        plan['ops'] = [op for op in plan['ops'] if op['op'] not in ('pop', 'popdup')]
+        plan['ops'] = sorted((op for op in plan['ops'] if 't' in op), key=lambda op: op['t']) + [op for op in plan['ops'] if 't' not in op]
+        plan['many'] = True
+    return plan
 
 
 def execute(plan, sched, verbose=False):
